@@ -220,6 +220,20 @@ CHECKS["C20"] = dict(
                        "corruption below 2e-4 in a smooth region is not seen.",
 )
 
+CHECKS["C11"] = dict(
+    level="other",
+    technique="static analysis: CFG must-pass-through (spinodal / step-size tests before recording), reaching-definition provenance of the "
+              "recorded potential per specialised control flow, def-use rules for range bookkeeping and the critical-temperature search",
+    text="Only the bookkeeping clauses of the property are in the shape of the code, and only those are decided: no point is recorded "
+         "without having passed the spinodal test (smallest Hessian eigenvalue at that point) and the step-size test; the recorded "
+         "potential is V at exactly the recorded location for both settings of the re-minimisation option; the usable range is the "
+         "tabulated range minus 2 dT, an end is flagged genuine only when the table stops short of the (clipped) requested range, the "
+         "down and up lists are joined in increasing temperature for all three arrays; the critical temperature is the refined sign "
+         "change of F_low - F_high scanned downward from TMax.",
+    note=COMMON_NOTE + " That every tabulated point is a minimum on the same branch, interpolation accuracy and whether a stop is a genuine "
+                       "disappearance of the phase -- the core of the property -- are NOT decided; this is the thinnest claim of the set.",
+)
+
 NOT_APPLICABLE = {}
 
 ENGINES = [
